@@ -69,7 +69,13 @@ def gen_eqn_session(S, idx):
         ops.append({'op': 'observe'})
     else:
         ops.append({'op': 'init'})
+        kfail = kn.randint(1, T) if kn.random() < 0.25 else None
         for k in range(1, T + 1):
+            if k == kfail:
+                # an attempt at this period that fails (sweep cap 1) and is caught; the cap is restored and the step retried
+                ops.append({'op': 'knob', 'name': 'MaxIterations', 'value': 1, 'history_only': True})
+                ops.append({'op': 'step', 'k': k, 'history_only': True})
+                ops.append({'op': 'knob', 'name': 'MaxIterations', 'value': 400, 'history_only': True})
             ops.append({'op': 'step', 'k': k})
         ops.append({'op': 'observe'})
     r = kn.random()
@@ -364,8 +370,24 @@ def run_sessions(case, quiet, only=None, fs=None):
                         outcome = type(ex).__name__
                     results[si].append((oi, outcome, None))
                     continue
+                if op.get('history_only'):
+                    # a failed attempt (and the knob changes around it) exists in the interleaved history only; the
+                    # session executed alone never makes it: what the solver reports afterwards must be the same
+                    if quiet:
+                        results[si].append((oi, 'skipped', None))
+                        continue
+                    st = states.setdefault(si, EqnState())
+                    outcome, obs = exec_eqn_op(st, op, quiet)
+                    if op['op'] == 'step' and outcome == 'ok':
+                        st.skip_step = op['k']      # it was no failure after all: the real step is already done
+                    results[si].append((oi, 'skipped', None))
+                    continue
                 if s['kind'] == 'EQN':
                     st = states.setdefault(si, EqnState())
+                    if op['op'] == 'step' and getattr(st, 'skip_step', None) == op['k']:
+                        st.skip_step = None
+                        results[si].append((oi, 'ok', ('outcome', 'ok')))
+                        continue
                     outcome, obs = exec_eqn_op(st, op, quiet)
                 elif s['kind'] == 'ECON':
                     o2 = op
